@@ -93,3 +93,13 @@ func Assigns(locs ...interface{}) {}
 // AssignsGlobal adds package-level variables of other packages (by full
 // name, e.g. "free5gclib/nas/security/snow3g.lfsr") to the frame.
 func AssignsGlobal(names ...string) {}
+
+// Ghost logs: histories written by the contracts of trusted calls (e.g. the
+// bytes handed to an abstract decoder, the messages written to a connection).
+// They exist only for the verifier; natively a harness that reads them cannot
+// be evaluated and is skipped.
+func GhostLog(name string, b []byte) {}
+func GhostLen(name string) int     { panic(Skip{"ghost log " + name}) }
+
+// GhostBytes returns entry i of the log (negative i counts from the end).
+func GhostBytes(name string, i int) []byte { panic(Skip{"ghost log " + name}) }
